@@ -1,0 +1,102 @@
+//! Verification hooks (cargo feature `verif-hooks`, off by default).
+//!
+//! Purely observational: a per-thread counter of the events popped by the sweep with an optional
+//! budget (a runaway sweep ends in a distinctive panic instead of never returning), flags that
+//! record which shortcut a call took, and an optional per-thread callback that is invoked at every
+//! hook point, which an external scheduler can use as a scheduling point.
+use std::cell::{Cell, RefCell};
+
+pub const BUDGET_PANIC_MESSAGE: &str = "verif: sweep event budget exceeded";
+
+thread_local! {
+    static EVENTS: Cell<u64> = const { Cell::new(0) };
+    static BUDGET: Cell<u64> = const { Cell::new(u64::MAX) };
+    static EARLY_BREAK: Cell<bool> = const { Cell::new(false) };
+    static TRIVIAL: Cell<bool> = const { Cell::new(false) };
+    static CONTOURS: Cell<u64> = const { Cell::new(0) };
+    #[allow(clippy::type_complexity)]
+    static YIELD: RefCell<Option<Box<dyn Fn(&'static str)>>> = const { RefCell::new(None) };
+}
+
+/// Clears all per-call observations of the current thread (budget and callback are kept).
+pub fn begin_call() {
+    EVENTS.with(|c| c.set(0));
+    CONTOURS.with(|c| c.set(0));
+    EARLY_BREAK.with(|c| c.set(false));
+    TRIVIAL.with(|c| c.set(false));
+}
+
+/// Maximal number of sweep events a single `subdivide` may pop on this thread before it panics.
+pub fn set_budget(budget: u64) {
+    BUDGET.with(|c| c.set(budget));
+}
+
+/// Installs (or removes) the callback invoked at every hook point of this thread.
+pub fn set_yield(f: Option<Box<dyn Fn(&'static str)>>) {
+    YIELD.with(|y| *y.borrow_mut() = f);
+}
+
+/// Number of events popped by the most recent `subdivide` on this thread.
+pub fn events() -> u64 {
+    EVENTS.with(|c| c.get())
+}
+
+/// Number of contours started by the most recent `connect_edges` on this thread.
+pub fn contours() -> u64 {
+    CONTOURS.with(|c| c.get())
+}
+
+pub fn early_break_taken() -> bool {
+    EARLY_BREAK.with(|c| c.get())
+}
+
+pub fn trivial_taken() -> bool {
+    TRIVIAL.with(|c| c.get())
+}
+
+pub fn point(kind: &'static str) {
+    YIELD.with(|y| {
+        if let Some(f) = y.borrow().as_ref() {
+            f(kind)
+        }
+    });
+}
+
+pub fn on_subdivide_start() {
+    EVENTS.with(|c| c.set(0));
+    point("subdivide");
+}
+
+pub fn on_sweep_event() {
+    let n = EVENTS.with(|c| {
+        c.set(c.get() + 1);
+        c.get()
+    });
+    if n > BUDGET.with(|c| c.get()) {
+        panic!("{}", BUDGET_PANIC_MESSAGE);
+    }
+    point("sweep");
+}
+
+pub fn note_early_break() {
+    EARLY_BREAK.with(|c| c.set(true));
+}
+
+pub fn note_trivial() {
+    TRIVIAL.with(|c| c.set(true));
+    point("trivial");
+}
+
+pub fn on_fill_polygon() {
+    point("fill");
+}
+
+pub fn on_connect_start() {
+    CONTOURS.with(|c| c.set(0));
+    point("connect");
+}
+
+pub fn on_contour() {
+    CONTOURS.with(|c| c.set(c.get() + 1));
+    point("contour");
+}
